@@ -9,8 +9,10 @@ Reading guide (code → model):
   (`.badPattern`); `len(expanded) > 0` → the matches; else the literal fallback.
 * `walkRoot`/`isDir`: the oracle `FsOracle.walk p` is `filepath.Walk(p + "/")`, `isDir` is `os.Stat`.
 * `openFileToReader`: open error → `none`; `gunzip` ∧ header error → log, `Seek(0)`, plain; else gzip reader.
-* `buildBatcher`: usage checks 1, 2 (batch, readers), the stdin test `len(fileglobs)==0||fileglobs[0]=="-"`,
-  usage check 3 (`-z` with stdin), else `OpenFilesToChan(GlobExpand(…))`.
+* `buildBatcher`: usage checks (batch size, batch buffer, readers, `--poll` / `--tail` without follow), the stdin test
+  `len(fileglobs)==0||fileglobs[0]=="-"`, usage check `-z` with stdin, follow ⇒ `TailFilesToChan`, else
+  `OpenFilesToChan(GlobExpand(…))`: `Rare.C06.dispatch` (`Model/C06Dispatch.lean`), which `Props/C06.lean` proves equal to the
+  FUNCTION regenerated from the body (`Gen.C06.buildBatcherFn`).
 * `mainFn`: the message of the returned error is logged when non-empty, the process exits with the
   `ExitCoder`'s code.
 -/
@@ -26,6 +28,6 @@ def isDir : List String := ["if:fi,err:=os.Stat(path);err==nil&&fi.IsDir(){", "r
 
 def openFileToReader : List String := ["stmt:baseFile,err:=os.Open(filename)", "if:err!=nil{", "return:nil,err", "}", "stmt:varfileio.ReadCloser=baseFile", "if:gunzip{", "stmt:zfile,err:=gzip.NewReader(file)", "if:err!=nil{", "do:logger.Printf(\"Gunziperrorforfile%s:%v;Readingasplainfile\",filename,err)", "do:baseFile.Seek(0,io.SeekStart)", "}else{", "stmt:file=zfile", "}", "}", "return:file,nil"]
 
-def buildBatcher : List String := ["if:batchSize<1{", "do:logger.Fatalf(ExitCodeInvalidUsage,\"Batchsizemustbe>=1,is%d\",batchSize)", "}", "if:concurrentReaders<1{", "do:logger.Fatalf(ExitCodeInvalidUsage,\"Musthaveatleast1reader\")", "}", "if:followPoll&&!follow{", "do:logger.Fatalf(ExitCodeInvalidUsage,\"Follow(-f)mustbeenabledfor--poll\")", "}", "if:followTail&&!follow{", "do:logger.Fatalf(ExitCodeInvalidUsage,\"Follow(-f)mustbeenabledfor--tail\")", "}", "if:len(fileglobs)==0||fileglobs[0]==\"-\"{", "if:gunzip{", "do:logger.Fatalln(ExitCodeInvalidUsage,\"Cannotdecompress(-z)withstdin\")", "}", "if:follow{", "do:logger.Println(\"Cannotfollowastdinstream,notafile\")", "}", "return:batchers.OpenReaderToChan(\"<stdin>\",os.Stdin,batchSize,batchBuffer)", "}else{", "if:follow{", "if:gunzip{", "do:logger.Println(\"Cannotcombine-fand-z\")", "}", "return:batchers.TailFilesToChan(dirwalk.GlobExpand(fileglobs,recursive),batchSize,batchBuffer,followReopen,followPoll,followTail)", "}else{", "return:batchers.OpenFilesToChan(dirwalk.GlobExpand(fileglobs,recursive),gunzip,concurrentReaders,batchSize,batchBuffer)", "}", "}"]
+def buildBatcher : List String := ["if:batchSize<1{", "do:logger.Fatalf(ExitCodeInvalidUsage,\"Batchsizemustbe>=1,is%d\",batchSize)", "}", "if:batchBuffer<0{", "do:logger.Fatalf(ExitCodeInvalidUsage,\"Batchbuffermustbe>=0,is%d\",batchBuffer)", "}", "if:concurrentReaders<1{", "do:logger.Fatalf(ExitCodeInvalidUsage,\"Musthaveatleast1reader\")", "}", "if:followPoll&&!follow{", "do:logger.Fatalf(ExitCodeInvalidUsage,\"Follow(-f)mustbeenabledfor--poll\")", "}", "if:followTail&&!follow{", "do:logger.Fatalf(ExitCodeInvalidUsage,\"Follow(-f)mustbeenabledfor--tail\")", "}", "if:len(fileglobs)==0||fileglobs[0]==\"-\"{", "if:gunzip{", "do:logger.Fatalln(ExitCodeInvalidUsage,\"Cannotdecompress(-z)withstdin\")", "}", "if:follow{", "do:logger.Println(\"Cannotfollowastdinstream,notafile\")", "}", "return:batchers.OpenReaderToChan(\"<stdin>\",os.Stdin,batchSize,batchBuffer)", "}else{", "if:follow{", "if:gunzip{", "do:logger.Println(\"Cannotcombine-fand-z\")", "}", "return:batchers.TailFilesToChan(dirwalk.GlobExpand(fileglobs,recursive),batchSize,batchBuffer,followReopen,followPoll,followTail)", "}else{", "return:batchers.OpenFilesToChan(dirwalk.GlobExpand(fileglobs,recursive),gunzip,concurrentReaders,batchSize,batchBuffer)", "}", "}"]
 
 end Rare.C06.Shape
